@@ -1,3 +1,4 @@
+import Proofs.EcdsaInstNamed
 import Proofs.EcdsaInstNt
 import Proofs.EcdsaInstRecover
 import Proofs.EcdsaRecover2
@@ -111,5 +112,29 @@ theorem recovery_on_curve (c : Affine.Crv) (C : Ctx p a b) (M : OnCurve.MatchesR
     fun A hA => (recovered_all_verify RC _ hsq d e k r s x0 H l hl A hA).2.2.2⟩
 
 end OnCurve
+
+/-! ### the named curves
+For each of the 16 named curves with cofactor 1 (rows of `Generated/Curves.lean`, re-extracted from the source on
+every run) the only hypotheses left are the SEC 2 / FIPS 186 / RFC 5639 facts **p prime, n prime, #E(𝔽_p) = n**
+(DESIGN §4); generator on the curve, reduced coordinates, Δ ≠ 0, h = 1 are computed by the kernel
+(`OnCurve.rowCheck_named`), `n • G = 0` is Lagrange, ⟨G⟩ is the whole group. -/
+section Named
+open GroupInterface
+
+theorem recovery_named (row : Gen.CurveRow) (hrow : row ∈ [Gen.curve_NIST192p, Gen.curve_NIST224p, Gen.curve_NIST256p, Gen.curve_NIST384p,
+      Gen.curve_NIST521p, Gen.curve_SECP256k1, Gen.curve_BRAINPOOLP160r1, Gen.curve_BRAINPOOLP192r1,
+      Gen.curve_BRAINPOOLP224r1, Gen.curve_BRAINPOOLP256r1, Gen.curve_BRAINPOOLP320r1, Gen.curve_BRAINPOOLP384r1,
+      Gen.curve_BRAINPOOLP512r1, Gen.curve_SECP112r1, Gen.curve_SECP128r1, Gen.curve_SECP160r1])
+    [Fact row.p.Prime] (hnp : row.n.Prime)
+    (hcard : Nat.card (Jac.Grp ((row.a : ℤ) : ZMod row.p) ((row.b : ℤ) : ZMod row.p)) = row.n) :
+    ∃ C : Ctx row.p row.a row.b, C.n = row.n ∧ ∀ d e k r s x0 : ℤ,
+      Honest (OnCurve.ops (OnCurve.crvOfRow row)) C.G OnCurve.xcOf d e k r s x0 →
+      ∃ l, recoverPublicKeys (OnCurve.ops (OnCurve.crvOfRow row)) NT.squareRootModPrime r s e = .ok l ∧ l.length ≤ 2 ∧
+        (∃ A ∈ l, OnCurve.Valid C A ∧ OnCurve.den C A = d • C.G) ∧
+        ∀ A ∈ l, verifies (OnCurve.ops (OnCurve.crvOfRow row)) A e r s = .ok true := by
+  obtain ⟨C, M, hn⟩ := OnCurve.matchesRec_of_row row hnp hcard (OnCurve.rowCheck_named row hrow)
+  exact ⟨C, hn, fun d e k r s x0 H => recovery_on_curve _ C M d e k r s x0 H⟩
+
+end Named
 
 end C14
